@@ -93,3 +93,23 @@ Theorem C07_ignore_marks_spec :
     Some (state_at false toks i || is_toggle_tok tok || am).
 Proof. exact ignore_marks_spec. Qed.
 
+(* END TO END, on the composed model Model/Format.v: format_model (the stage models folded over the stage list GENERATED from make_formatter,
+   from the input bytes to the output bytes; tied to the implementation byte for byte and stage by stage by unit e2e). The output is the
+   concatenation of one part per lexed token, and the part of every token marked ignored (toggle regions, asm instruction lines) is
+   its original whitespace and content, byte for byte - no exception: the safety-net newline cannot fire before an ignored token. *)
+From PasfmtVerif Require Import Model.Format Proofs.FormatProofs Proofs.FormatTotalProofs Proofs.FormatWrapProofs Proofs.FormatIgnoredProofs Proofs.FormatVerbatimProofs Proofs.FormatLayoutProofs Proofs.FormatRescanProofs Proofs.FormatContentProofs Proofs.FormatMLProofs Proofs.FormatContentMLProofs Proofs.FormatEofProofs.
+Theorem C07_format_ignored_exact :
+  forall (alnum : bytes -> bool) (cfg : fconfig) (s out : bytes),
+  format_model alnum cfg s = inl out ->
+  exists (segs : list seg) (parts : list (bytes * bytes)),
+    lex_segments s = Some segs /\
+    concat (map seg_bytes segs) = s /\
+    length parts = length segs /\
+    out = flatten_parts parts /\
+    (forall (i : nat) (sg : seg),
+     nth_error segs i = Some sg ->
+     nth_error (fm_marks segs) i = Some true ->
+     nth_error parts i = Some (seg_ws sg, seg_content sg)).
+Proof. exact format_ignored_exact. Qed.
+
+
